@@ -141,13 +141,14 @@ NORM_SPLITS = [  # name, V_COMPS, VM, VL, VT
     ("path", 1 | 8, 2, 3, 4),
     ("all-short", 127, 1, 1, 3),
     ("pct2", 16, 1, 6, 6),      # query only, six characters of '%' and hex digits: two adjacent percent-encodings
+    ("netpath", 4 | 8, 2, 2, 3),  # host and path: network-path references and authority-form URIs with two segments ('//h/a/..')
     ("dots", 8, 3, 2, 3),       # path only, three segments of up to two characters over a three-character text ('../../..', 'a/../..', ...)
 ]
 NORM_KF = ["C08-host-percent-encoding-lowercased", "C08-network-path-reference-treated-as-relative", "C09-relative-path-collapses", "C07-normalize-relative-path-reparse",
            "C14-normalize-borrowed-path-leak"]
 for ch in ("A", "W"):
     for (nm, comps, vm, vl, vt) in NORM_SPLITS:
-        if nm != "dots" and not (nm == "pct2" and ch == "W"): ob(id="NormalizeMaskRequired.%s.%s.H" % (nm, ch), props=["C08", "C12", "C19", "C20"], route="H", harness="c08_normalize.c", char=ch,
+        if nm not in ("dots", "netpath") and not (nm == "pct2" and ch == "W"): ob(id="NormalizeMaskRequired.%s.%s.H" % (nm, ch), props=["C08", "C12", "C19", "C20"], route="H", harness="c08_normalize.c", char=ch,
            group="uriNormalizeSyntaxMaskRequiredEx: reported mask is sufficient (bit clear => component already normal), read-only",
            defines=dict({"VM": vm, "VL": vl, "VT": vt, "V_OWNED": 0, "VSTUB_MEMCPY": 3, "V_PART": 1, "V_COMPS": comps, "VU_SLACK": 2}, **({"V_POOL_PCT": 1} if nm == "pct2" else {})),
            unwindset=norm_uw(ch, vm, vl), level="B",
@@ -156,7 +157,7 @@ for ch in ("A", "W"):
            inlined=["uriContainsUppercaseLetters" + ch, "uriContainsUglyPercentEncoding" + ch, "uriHexdigToInt" + ch, "uriIsUnreserved"],
            stubs=["memcpy (one whole Uri structure, structure assignment)"], kf=NORM_KF, timeout_s=by_tier(900, 3600), mem_gb=8)
         for owned in ((0, 1) if ch == "A" else ()):     # W instances exceed the memory budget at these bounds (DESIGN "W pass")
-            if nm == "pct2" or (owned and nm == "dots"):
+            if nm == "pct2" or (owned and nm in ("dots", "netpath")):
                 continue
             if owned and nm == "path":
                 vl = 2      # the owned/path instance does not fit into memory with 3-character segments (percent-encodings in
@@ -515,7 +516,7 @@ QUICK = {
     "C06": [r"^AddBaseUri\.A"],
     "C07": [r"^RemoveBaseUri\.A", r"^MakeOwner\.A", r"^NormalizeSyntax\.borrowed\.(scheme-query-fragment|all-short|path)\.A", r"^PushPathSegment\.A"],
     "C08": [r"^NormalizeSyntax\.(borrowed|owned)\.(scheme-query-fragment|authority|path|all-short)\.A", r"^NormalizeMaskRequired\..*\.A"],
-    "C09": [r"^NormalizeSyntax\.(borrowed|owned)\.(path|all-short)\.A", r"^NormalizeSyntax\.borrowed\.dots\.A"],
+    "C09": [r"^NormalizeSyntax\.(borrowed|owned)\.(path|all-short)\.A", r"^NormalizeSyntax\.borrowed\.(dots|netpath)\.A"],
     "C10": [r"^RemoveBaseUri\."],
     "C11": [r"."],
     "C12": [r"^Watch\.(AddBaseUri|Readers|NormalizeMaskRequired|ComposeQuery)\.A", r"^MakeOwner\.", r"^NormalizeSyntax\.borrowed\.authority\.A", r"^EqualsUri\.A", r"^ToString\.cap\.regname\.A", r"^NormalizeMaskRequired\.authority\.A"],
